@@ -1,5 +1,7 @@
 // Copyright 2020 TiKV Project Authors. Licensed under Apache-2.0.
 
+use std::collections::VecDeque;
+
 use rtrb::Consumer;
 use rtrb::Producer;
 use rtrb::PushError;
@@ -10,7 +12,7 @@ pub fn bounded<T>(capacity: usize) -> (Sender<T>, Receiver<T>) {
     (
         Sender {
             tx,
-            pending_messages: Vec::new(),
+            pending_messages: VecDeque::new(),
         },
         Receiver { rx },
     )
@@ -18,7 +20,7 @@ pub fn bounded<T>(capacity: usize) -> (Sender<T>, Receiver<T>) {
 
 pub struct Sender<T> {
     tx: Producer<T>,
-    pending_messages: Vec<T>,
+    pending_messages: VecDeque<T>,
 }
 
 pub struct Receiver<T> {
@@ -33,11 +35,12 @@ pub struct ChannelClosed;
 
 impl<T> Sender<T> {
     pub fn send(&mut self, value: T) -> Result<(), ChannelFull> {
-        while let Some(value) = self.pending_messages.pop() {
+        // Replay the parked messages oldest first so that they keep their order.
+        while let Some(value) = self.pending_messages.pop_front() {
             #[cfg(fastrace_verif)]
             crate::verif::hook(|| crate::verif::Site::BeforePush { free: self.tx.slots(), pending: self.pending_messages.len() + 1 });
             if let Err(PushError::Full(value)) = self.tx.push(value) {
-                self.pending_messages.push(value);
+                self.pending_messages.push_front(value);
                 #[cfg(fastrace_verif)]
                 crate::verif::hook(|| crate::verif::Site::PushOutcome { ok: false });
                 return Err(ChannelFull);
@@ -52,19 +55,16 @@ impl<T> Sender<T> {
     }
 
     pub fn force_send(&mut self, value: T) {
-        while let Some(value) = self.pending_messages.pop() {
+        // Queue the message behind the parked ones, then move as many as fit, oldest first, so
+        // that a message never overtakes one that was parked before it.
+        self.pending_messages.push_back(value);
+        while let Some(value) = self.pending_messages.pop_front() {
             #[cfg(fastrace_verif)]
             crate::verif::hook(|| crate::verif::Site::BeforePush { free: self.tx.slots(), pending: self.pending_messages.len() + 1 });
             if let Err(PushError::Full(value)) = self.tx.push(value) {
-                self.pending_messages.push(value);
+                self.pending_messages.push_front(value);
                 break;
             }
-        }
-
-        #[cfg(fastrace_verif)]
-        crate::verif::hook(|| crate::verif::Site::BeforePush { free: self.tx.slots(), pending: self.pending_messages.len() });
-        if let Err(PushError::Full(value)) = self.tx.push(value) {
-            self.pending_messages.push(value);
         }
     }
 }
